@@ -12,13 +12,13 @@ ALIASES = {"server": ["srv", "s"], "list": ["ls"], "pkg": ["p"], "run": ["r"], "
 OPTS_BY_DEPTH = [[("verbose2", "w"), ("force", "f")], [("bar", "b"), ("num", "n")], [("quux", "q"), ("opt", "o")]]
 
 
-def gen_cmd(rng, name, depth, max_depth, fanout):
+def gen_cmd(rng, name, depth, max_depth, fanout, opts_by_depth=None):
     c = {"name": name, "aliases": [], "default": False, "anonymous": False, "hidden": rng.random() < 0.15,
          "enabled": rng.random() > 0.12, "lenient": rng.random() < 0.1, "args": [], "opts": [], "subs": []}
     if rng.random() < 0.6:
         c["aliases"] = rng.sample(ALIASES.get(name, []), rng.randint(0, len(ALIASES.get(name, []))))
     # options: names unique along every path (one pool per depth)
-    for (ln, sh) in OPTS_BY_DEPTH[depth]:
+    for (ln, sh) in (opts_by_depth or OPTS_BY_DEPTH)[depth]:
         if rng.random() < 0.5:
             mode = rng.choice(["flag", "flag", "required", "optional"])
             ty = rng.choice(pc.TYPES) if mode != "flag" else "string"
@@ -33,7 +33,7 @@ def gen_cmd(rng, name, depth, max_depth, fanout):
     if n_subs:
         pool = SUB if depth == 0 else SUBSUB
         for nm in rng.sample(pool, min(n_subs, len(pool))):
-            s = gen_cmd(rng, nm, depth + 1, max_depth, fanout)
+            s = gen_cmd(rng, nm, depth + 1, max_depth, fanout, opts_by_depth)
             r = rng.random()
             if r < 0.25:
                 s["default"] = True
@@ -56,13 +56,13 @@ def gen_cmd(rng, name, depth, max_depth, fanout):
     return c
 
 
-def gen_tree(rng, max_depth=3, fanout=3):
+def gen_tree(rng, max_depth=3, fanout=3, opts_by_depth=None):
     """a command tree spec; sibling NAMES are unique, aliases may collide with sibling names/aliases"""
     n = rng.randint(1, min(fanout + 1, len(TOP)))
     cmds = []
     used = set()
     for nm in rng.sample(TOP, n):
-        c = gen_cmd(rng, nm, 0, max_depth, fanout)
+        c = gen_cmd(rng, nm, 0, max_depth, fanout, opts_by_depth)
         # the application rejects a top-level name or alias that is already taken
         c["aliases"] = [a for a in c["aliases"] if a not in used and a not in TOP]
         used.add(nm)
@@ -76,7 +76,7 @@ def gen_tree(rng, max_depth=3, fanout=3):
     return {"commands": cmds, "global_flag": rng.random() < 0.8}
 
 
-def _configure(cfg, spec):
+def _configure(cfg, spec, handler_for=None, path=()):
     from clikit.api.args.format.argument import Argument  # noqa
     for a in spec["aliases"]:
         cfg.add_alias(a)
@@ -101,11 +101,13 @@ def _configure(cfg, spec):
     for a in spec["args"]:
         cfg.add_argument(a["name"], pc.arg_flags(a["mode"], a["type"], a["nullable"]), a.get("description"),
                          pc.dec(a.get("default")))
+    if handler_for is not None:
+        cfg.set_handler(handler_for(tuple(path) + (spec["name"],)))
     for s in spec["subs"]:
-        _configure(cfg.create_sub_command(s["name"]), s)
+        _configure(cfg.create_sub_command(s["name"]), s, handler_for, tuple(path) + (spec["name"],))
 
 
-def build_app(tree, config=None, handler=None):
+def build_app(tree, config=None, handler=None, handler_for=None, catch=False):
     """a ConsoleApplication on a bare ApplicationConfig (default resolver, no default listeners)"""
     from clikit.api.config.application_config import ApplicationConfig
     from clikit.console_application import ConsoleApplication
@@ -115,14 +117,14 @@ def build_app(tree, config=None, handler=None):
         config = ApplicationConfig("app", "1.2.3")
         config.set_command_resolver(DefaultResolver())
         config.set_style_set(DefaultStyleSet())
-    config.set_catch_exceptions(False)
+    config.set_catch_exceptions(catch)
     config.set_terminate_after_run(False)
     if handler is not None:
         config.set_handler(handler)
     if tree.get("global_flag"):
         config.add_option("gflag", "g")
     for c in tree["commands"]:
-        _configure(config.create_command(c["name"]), c)
+        _configure(config.create_command(c["name"]), c, handler_for)
     return ConsoleApplication(config)
 
 
